@@ -1,6 +1,8 @@
 CONSTANTS MaxEdits = 2
- Flaw_Paths = TRUE
- Flaw_NoOutput = TRUE
+ Flaw_DirNames = TRUE
+ Flaw_Paths = FALSE
+ Flaw_NoOutput = FALSE
+ Flaw_Args = FALSE
  Shape = 2
  Menu = "all"
  EmitAll = FALSE
